@@ -2,9 +2,12 @@ SPECIFICATION Spec
 CONSTANTS
   Configs <- MCConfigs2
   Mut = "none"
+  Targets <- NoTargets
+  MaxReload = 0
+  LCMP = 10
   SAT = SAT
   InScope <- ScopeHealthy
   ExcuseStuck = FALSE
 VIEW view
-INVARIANTS TypeOK AllowedDefined AllowedInRange AdmittedLeT ColdAfterIdle ColdAfterIdleObs WarmAfterSat WarmAfterSatThr NoStarvation
+INVARIANTS TypeOK AllowedDefined AllowedInRange AdmittedLeT ColdAfterIdle ColdAfterIdleObs WarmAfterSat WarmAfterSatThr NoStarvation ProgressOK
 CHECK_DEADLOCK FALSE
